@@ -4,6 +4,9 @@ import vlib
 
 PROPS = {"A", "B", "C", "D", "E", "F"}
 LIVE = {"A", "B", "C", "E"}
+# replays also carry G: the dashboard / API switches as one restart-required setting whose "inv" value is the combination
+# under which the process cannot start (the exhaustive TLC run keeps six settings: a seventh adds nothing to the protocol)
+GENPROPS = PROPS | {"G"}
 INV = ["ComponentsFollow", "FileIsBase", "OnlyWorkable"]
 
 
@@ -16,7 +19,7 @@ def mc(maxsteps=4, timeout=300, coverage=False):
 
 
 def run(num, depth, seed):
-    cfg = vlib.cfg_text(dict(Props=PROPS, Live=LIVE, MaxSteps=depth, Depth=depth + 1), spec="GenSpec", invariants=["PrintHist"])
+    cfg = vlib.cfg_text(dict(Props=GENPROPS, Live=LIVE, MaxSteps=depth, Depth=depth + 1), spec="GenSpec", invariants=["PrintHist"])
     hists = vlib.tlc_simulate("ConfigCellsGen", cfg, num + 2, depth + 1, seed)[:num]
     return replay(hists)
 
@@ -25,7 +28,7 @@ def replay(hists):
     binp = vlib.go_build("cfgdrv")
     d = vlib.scratch("cfg-")
     try:
-        json.dump({"props": sorted(PROPS), "behaviours": hists}, open(os.path.join(d, "in.json"), "w"))
+        json.dump({"props": sorted(GENPROPS), "behaviours": hists}, open(os.path.join(d, "in.json"), "w"))
         rc, out, err, _ = vlib.run_driver(binp, ["-in", "in.json", "-out", "trace.ndjson"], cwd=d, timeout=600)
         lines = [json.loads(x) for x in open(os.path.join(d, "trace.ndjson"))] if os.path.exists(os.path.join(d, "trace.ndjson")) else []
         problems = []
@@ -40,7 +43,7 @@ def replay(hists):
             problems.append({"cats": ["C18"], "line": len(lines) + 1, "event": {"died_during": nxt, "stderr": err[-1500:]},
                              "context": [x for x in lines if x.get("b") == bi][-6:],
                              "replay_input": {"behaviours": [hists[bi - 1]] if bi - 1 < len(hists) else []}})
-        tr = vlib.cfg_text(dict(Props=PROPS, Live=LIVE, MaxSteps=9999, TraceFile="trace.ndjson"), spec="TraceSpec", postcondition="Report")
+        tr = vlib.cfg_text(dict(Props=GENPROPS, Live=LIVE, MaxSteps=9999, TraceFile="trace.ndjson"), spec="TraceSpec", postcondition="Report")
         consumed = 0
         if lines:
             r = vlib.tlc_validate("ConfigCellsTrace", tr, os.path.join(d, "trace.ndjson"))
